@@ -174,6 +174,36 @@ func (c *CbPtr) UnmarshalJSON(b []byte) error {
 	return err
 }
 
+// CbBoth implements BOTH json.Marshaler and encoding.TextMarshaler (like time.Time): as a
+// value its JSON form is used, as a map key its text form; which of the two a program calls
+// is fixed when the program is compiled for that position.
+type CbBoth struct{ N int }
+
+func (c CbBoth) MarshalJSON() ([]byte, error) {
+	return []byte(`{"both":` + strconv.Itoa(c.N) + `}`), nil
+}
+
+func (c *CbBoth) UnmarshalJSON(b []byte) error {
+	var t struct {
+		Both int `json:"both"`
+	}
+	err := json.Unmarshal(b, &t)
+	c.N = t.Both
+	return err
+}
+
+func (c CbBoth) MarshalText() ([]byte, error) { return []byte("both:" + strconv.Itoa(c.N)), nil }
+
+func (c *CbBoth) UnmarshalText(b []byte) error {
+	s := string(b)
+	if !strings.HasPrefix(s, "both:") {
+		return fmt.Errorf("bad CbBoth %q", s)
+	}
+	n, err := strconv.Atoi(s[5:])
+	c.N = n
+	return err
+}
+
 // static recursive type (exercises _OP_recurse and types above the inline depth)
 type RecT struct {
 	V    int               `json:"v"`
@@ -190,6 +220,7 @@ var (
 	tCbJSON = reflect.TypeOf(CbJSON{})
 	tCbText = reflect.TypeOf(CbText{})
 	tCbPtr  = reflect.TypeOf(CbPtr{})
+	tCbBoth = reflect.TypeOf(CbBoth{})
 	tRec    = reflect.TypeOf(RecT{})
 	tNumber = reflect.TypeOf(json.Number(""))
 	tRaw    = reflect.TypeOf(json.RawMessage(nil))
@@ -236,7 +267,17 @@ func (z *zoo) Type(depth int) reflect.Type {
 	if depth >= z.maxDep {
 		return z.leaf()
 	}
-	switch z.g.d(14) {
+	switch z.g.d(16) {
+	case 14:
+		if z.cb {
+			return tCbBoth
+		}
+		return z.leaf()
+	case 15:
+		if z.cb {
+			return reflect.MapOf(tCbBoth, z.Type(depth+1))
+		}
+		return z.leaf()
 	case 0, 1, 2:
 		return z.Struct(depth)
 	case 3:
@@ -325,6 +366,9 @@ func (z *zoo) fill(v reflect.Value, depth int) {
 	case tCbPtr:
 		v.Set(reflect.ValueOf(CbPtr{X: g.d(1000)}))
 		return
+	case tCbBoth:
+		v.Set(reflect.ValueOf(CbBoth{N: g.d(1000)}))
+		return
 	case tNumber:
 		v.Set(reflect.ValueOf(json.Number(strconv.Itoa(g.d(100000) - 500))))
 		return
@@ -343,7 +387,13 @@ func (z *zoo) fill(v reflect.Value, depth int) {
 	case reflect.Uint16:
 		v.SetUint(uint64(g.d(65536)))
 	case reflect.String:
-		v.SetString(safeStrs[g.d(len(safeStrs))])
+		if i := g.d(len(safeStrs) + 1); i < len(safeStrs) {
+			v.SetString(safeStrs[i])
+		} else {
+			// invalid UTF-8: ConfigStd (ValidateString) repairs it into a second pooled buffer,
+			// exactly as encoding/json writes U+FFFD
+			v.SetString("inv\xff\xfealid\xc3")
+		}
 	case reflect.Bool:
 		v.SetBool(g.d(2) == 0)
 	case reflect.Float64:
